@@ -190,6 +190,34 @@ func queueLinear(cfg Config, file string, runs, steps int) (int, error) {
 			return tt.Op{}, false
 		})
 	}
+	// long runs of EQUAL values (a representation that counts repetitions has its limits at 2^8, 2^9 ...): one
+	// other element in front and one behind, 700 times the same value in between, drained with a refill
+	for r := 0; r < 2; r++ {
+		const run = 700
+		s := &queueSys{hasN: hasN, probeAt: func(st int) bool { return st%53 == 0 || (st >= run && st <= run+6) || st >= 2*run-2 }}
+		linked := r == 1
+		ls.Run(s, func(step int) (tt.Op, bool) {
+			switch {
+			case step == 0 && linked:
+				return op("newl", 1), true
+			case step == 0:
+				return op("newq"), true
+			case step == 1:
+				return op("enq", 1), true
+			case step <= 1+run:
+				return op("enq", 2), true
+			case step == 2+run:
+				return op("enq", 3), true
+			case step <= 2+run+run-250:
+				return op("deq"), true
+			case step <= 2+run+run-250+10:
+				return op("enq", 2), true
+			case step <= 2+run+run-250+10+275:
+				return op("deq"), true
+			}
+			return tt.Op{}, false
+		})
+	}
 	return ls.Close()
 }
 
